@@ -32,15 +32,16 @@ theorem permEq_setEq {l l' : List Row} (h : PermEq l l') : SetEq l l' := by
 theorem planner_clause_order {gs : List QGraph} {F : Facts} (hF : Facts.WF F = true) (hg : GraphsOK F gs) (U : Universe gs) (lo : QOpts)
     (c0 : Clause) (cs : List Clause) (c0' : Clause) (cs' : List Clause) (hp : (c0 :: cs).Perm (c0' :: cs'))
     (hpc : ∀ c ∈ c0 :: cs, PatClause U c ∧ Plain c)
+    (hno : ∀ c ∈ c0 :: cs, c.oLowerAlias = [] ∧ c.oUpperAlias = [])
     (h0 : c0.extractsNothing = false) (h0' : c0'.extractsNothing = false)
     (out out' : Tbl) (h : processPattern F gs (c0 :: cs) lo 0 (fun _ => none) = .ok out)
     (h' : processPattern F gs (c0' :: cs') lo 0 (fun _ => none) = .ok out') :
     SetEq out.rows out'.rows := by
   have hpc' : ∀ c ∈ c0' :: cs', PatClause U c ∧ Plain c := fun c hc => hpc c (hp.mem_iff.mpr hc)
-  have s1 := processPattern_spec hF hg U lo c0 cs (hpc c0 List.mem_cons_self).1
-    (fun c hc => (hpc c (List.mem_cons_of_mem _ hc)).1) (hpc c0 List.mem_cons_self).2.1 h0 out h
-  have s2 := processPattern_spec hF hg U lo c0' cs' (hpc' c0' List.mem_cons_self).1
-    (fun c hc => (hpc' c (List.mem_cons_of_mem _ hc)).1) (hpc' c0' List.mem_cons_self).2.1 h0' out' h'
+  have s1 := processPattern_spec_plain hF hg U lo c0 cs (hpc c0 List.mem_cons_self).1
+    (fun c hc => (hpc c (List.mem_cons_of_mem _ hc)).1) hno (hpc c0 List.mem_cons_self).2.1 h0 out h
+  have s2 := processPattern_spec_plain hF hg U lo c0' cs' (hpc' c0' List.mem_cons_self).1
+    (fun c hc => (hpc' c (List.mem_cons_of_mem _ hc)).1) (fun c hc => hno c (hp.mem_iff.mpr hc)) (hpc' c0' List.mem_cons_self).2.1 h0' out' h'
   have hn1 : AllNodup ([[]] : List Row) := by
     intro r hr; simp only [List.mem_singleton] at hr; subst hr; exact List.nodup_nil
   have mid : PermEq (solutions (gs.flatMap scanOf) (nl lo.lower) (nl lo.upper) (c0 :: cs))
@@ -58,14 +59,15 @@ theorem planner_partition {gs gs' : List QGraph} {F : Facts} (hF : Facts.WF F = 
     (U : Universe gs) (U' : Universe gs') (lo : QOpts) (c0 : Clause) (cs : List Clause)
     (hscan : (gs.flatMap scanOf).Perm (gs'.flatMap scanOf))
     (hpc : ∀ c ∈ c0 :: cs, PatClause U c) (hpc' : ∀ c ∈ c0 :: cs, PatClause U' c)
+    (hno : ∀ c ∈ c0 :: cs, c.oLowerAlias = [] ∧ c.oUpperAlias = [])
     (hopt : c0.optional = false) (h0 : c0.extractsNothing = false)
     (out out' : Tbl) (h : processPattern F gs (c0 :: cs) lo 0 (fun _ => none) = .ok out)
     (h' : processPattern F gs' (c0 :: cs) lo 0 (fun _ => none) = .ok out') :
     SetEq out.rows out'.rows := by
-  have s1 := processPattern_spec hF hg U lo c0 cs (hpc c0 List.mem_cons_self)
-    (fun c hc => hpc c (List.mem_cons_of_mem _ hc)) hopt h0 out h
-  have s2 := processPattern_spec hF hg' U' lo c0 cs (hpc' c0 List.mem_cons_self)
-    (fun c hc => hpc' c (List.mem_cons_of_mem _ hc)) hopt h0 out' h'
+  have s1 := processPattern_spec_plain hF hg U lo c0 cs (hpc c0 List.mem_cons_self)
+    (fun c hc => hpc c (List.mem_cons_of_mem _ hc)) hno hopt h0 out h
+  have s2 := processPattern_spec_plain hF hg' U' lo c0 cs (hpc' c0 List.mem_cons_self)
+    (fun c hc => hpc' c (List.mem_cons_of_mem _ hc)) hno hopt h0 out' h'
   exact (s1.trans (SetEq.of_perm (BW.Proofs.Query.solutions_perm_scan _ _ _ _ (c0 :: cs) hscan))).trans s2.symm
 
 /-- **More data, no fewer rows, for the planner** (patterns without OPTIONAL). -/
@@ -73,14 +75,15 @@ theorem planner_monotone {gs gs' : List QGraph} {F : Facts} (hF : Facts.WF F = t
     (U : Universe gs) (U' : Universe gs') (lo : QOpts) (c0 : Clause) (cs : List Clause)
     (hsub : ∀ t ∈ gs.flatMap scanOf, t ∈ gs'.flatMap scanOf)
     (hpc : ∀ c ∈ c0 :: cs, PatClause U c ∧ c.optional = false) (hpc' : ∀ c ∈ c0 :: cs, PatClause U' c)
+    (hno : ∀ c ∈ c0 :: cs, c.oLowerAlias = [] ∧ c.oUpperAlias = [])
     (h0 : c0.extractsNothing = false)
     (out out' : Tbl) (h : processPattern F gs (c0 :: cs) lo 0 (fun _ => none) = .ok out)
     (h' : processPattern F gs' (c0 :: cs) lo 0 (fun _ => none) = .ok out') :
     ∀ r ∈ out.rows, ∃ r' ∈ out'.rows, RowEq r r' := by
-  have s1 := processPattern_spec hF hg U lo c0 cs (hpc c0 List.mem_cons_self).1
-    (fun c hc => (hpc c (List.mem_cons_of_mem _ hc)).1) (hpc c0 List.mem_cons_self).2 h0 out h
-  have s2 := processPattern_spec hF hg' U' lo c0 cs (hpc' c0 List.mem_cons_self)
-    (fun c hc => hpc' c (List.mem_cons_of_mem _ hc)) (hpc c0 List.mem_cons_self).2 h0 out' h'
+  have s1 := processPattern_spec_plain hF hg U lo c0 cs (hpc c0 List.mem_cons_self).1
+    (fun c hc => (hpc c (List.mem_cons_of_mem _ hc)).1) hno (hpc c0 List.mem_cons_self).2 h0 out h
+  have s2 := processPattern_spec_plain hF hg' U' lo c0 cs (hpc' c0 List.mem_cons_self)
+    (fun c hc => hpc' c (List.mem_cons_of_mem _ hc)) hno (hpc c0 List.mem_cons_self).2 h0 out' h'
   intro r hr
   obtain ⟨x, hx, e1⟩ := s1.1 r hr
   have hx' := BW.Proofs.Query.solutions_mono _ _ _ _ (c0 :: cs) (fun c hc => (hpc c hc).2) hsub x hx
